@@ -160,7 +160,11 @@ class Result:
 
         ret = {}
         for branch in self.branches:
-            ret[branch.outcome] = int(branch.frequency * shots)
+            # NOTE: Several branches may carry the same outcome, e.g., for imperfect
+            # detectors, where different actual outcomes yield the same detected one.
+            ret[branch.outcome] = ret.get(branch.outcome, 0) + int(
+                branch.frequency * shots
+            )
 
         return ret
 
